@@ -135,6 +135,7 @@ def run(ck):
     for c in ("29", "101", "109"):
         ck.mc("MC_Scalar", "MC_Scalar_%s.cfg" % c, note="Z/l' for toy curve %s: all pairs of byte strings, all 2-byte wide inputs" % c, workers=8)
     ck.mc("MC_ExpChain", "MC_ExpChain.cfg", note="scalar inversion chain ends at l-2 (full size)", workers=1)
+    ck.mc("Mul29", "MC_Mul29.cfg", note="Scalar29::mul_internal (Karatsuba with wrapping words) and square_internal equal the schoolbook coefficients: bilinear / quadratic forms agree on all 81 basis pairs", workers=2)
     if not quick:
         ck.apalache("AP_ScalarSub52", 2, "Scalar52::sub = (a - b) mod l for ALL reduced 52-bit-limb operands (borrow chain + masked add-back)", cinit="CSub", timeout=1500)
         ck.apalache("AP_ScalarSub52", 2, "Scalar52::add = (a + b) mod l for ALL reduced operands", cinit="CAdd", timeout=1500)
